@@ -294,7 +294,7 @@ int main(int argc, char **argv) {
     // (b) every remaining axis swept with the others at default, for 4 representative masks
     for (int N = 1; N <= (th ? 6 : 5); ++N) for (unsigned m : {0u, 255u, 0x11u, 0x5au}) {
       for (int tm = 0; tm < 3; ++tm) for (int sm = 0; sm < 4; ++sm) { Cfg g; g.mask = m; g.N = N; g.tm = tm; g.sm = sm; unit_do(g); }
-      for (int f = 0; f <= 10; ++f) for (double rho : {0.0, 0.25}) for (int K : {1, 2, 3, 8}) { if (!th && N > 3 && !(K == 3 || f == 8)) continue; Cfg g; g.mask = m; g.N = N; g.fmode = f; g.rho = rho; g.K = K; unit_do(g); }
+      for (int f = 0; f <= 10; ++f) for (double rho : {0.0, 0.25}) for (int K : {1, 2, 3, 8, 49}) { if (K == 49 && !(f == 8 && rho > 0)) continue;   /* 49 * (1.0/49) < 1 in double */ if (!th && N > 3 && !(K == 3 || f == 8)) continue; Cfg g; g.mask = m; g.N = N; g.fmode = f; g.rho = rho; g.K = K; unit_do(g); }
       for (int t0i = 1; t0i < 3; ++t0i) for (int tcm = 0; tcm < 3; ++tcm) { Cfg g; g.mask = m; g.N = N; g.t0i = t0i; g.tcmode = tcm; g.wcmode = tcm & 1; g.fmode = 9; unit_do(g); }
       for (int K : {1, 3}) for (int f : {11, 5}) { Cfg g; g.mask = m; g.N = N; g.fmode = f; g.K = K; g.origin = true; unit_do(g); }   // state exactly 0 at a sample (identity spatial map)
       if (th) for (int K : {7, 49, 64}) { Cfg g; g.mask = m; g.N = N; g.K = K; g.fmode = 9; g.rho = 0.0009765625; unit_do(g); }
